@@ -63,6 +63,7 @@ fn scanning_extreme_values_never_panics() {
 fn count_arithmetic_matches_tex() {
     std::panic::set_hook(Box::new(|_| {}));
     let vals: [i64; 11] = [i32::MIN as i64, -2147483647, -65536, -3, -1, 0, 1, 2, 7, 65536, 2147483647];
+    let mut failures = 0;
     for a in vals { for b in vals {
         if b == i32::MIN as i64 { continue; } // cannot be written as an operand literal
         for (op, name) in [("advance", "Advance"), ("multiply", "Multiply"), ("divide", "Divide")] {
@@ -70,7 +71,8 @@ fn count_arithmetic_matches_tex() {
             let want: Result<i64, ()> = match op {
                 "advance" => Ok((((a + b) as i128 + (1i128 << 31)).rem_euclid(1i128 << 32) - (1i128 << 31)) as i64),
                 "multiply" => { let p = a as i128 * b as i128; if p.abs() > i32::MAX as i128 { Err(()) } else { Ok(p as i64) } }
-                _ => { if b == 0 { Err(()) } else { Ok((a as i128 / b as i128) as i64) } }
+                // (the quotient 2^31 of -2^31 / -1 is not representable: an error, as for any overflow)
+                _ => { if b == 0 || (a as i128 / b as i128) > i32::MAX as i128 { Err(()) } else { Ok((a as i128 / b as i128) as i64) } }
             };
             let got = run(&src);
             let ok = match (&got, &want) {
@@ -79,9 +81,11 @@ fn count_arithmetic_matches_tex() {
                 _ => false,
             };
             if !ok {
-                // the multiply of MIN by -1 / divide of MIN by -1 are reported through the same obligation
-                println!("WITNESS {{\"fn\": \"apply\", \"unit_fns\": [\"apply\"], \"source\": \"{}\", \"observed\": \"{:?}\", \"expected\": \"{:?} ({name}: TeX.2021.1236-1240)\"}}", src.replace('\\', "\\\\"), got, want);
-                return;
+                let obs = match &got { None => "panic".to_string(), Some(Ok(o)) => format!("prints {}", o.trim()), Some(Err(_)) => "reports an error".to_string() };
+                println!("WITNESS {{\"fn\": \"apply\", \"unit_fns\": [\"apply\"], \"a\": {a}, \"b\": {b}, \"op\": \"{op}\", \"observed\": \"{obs}\", \"expected\": \"{}\"}}",
+                    match want { Ok(w) => format!("{w}"), Err(()) => "an arithmetic error, register unchanged".to_string() });
+                failures += 1;
+                if failures >= 12 { return; }
             }
         }
     } }
